@@ -191,6 +191,19 @@ CHECKS = {
         note=BASE_NOTE + 'Model = the debugger AS REPAIRED (five fix commits); the text the debugger prints is not compared; '
              'termination of a command is that of the program (fuel in the model).',
         technique='Lean 4 theorems over a parametric debugger/machine model + session correspondence with the real debugger'),
+    'C13': dict(
+        category='proof',
+        text='Theorem (induction over expression trees of any depth, any leaf values): on INTEGER / LONG trees - + - * \\ MOD, AND OR '
+             'XOR EQV IMP NOT, the six comparisons, unary minus/plus - whenever the debugger\'s evaluator prints a value the '
+             'compiled expression computes exactly that typed value (refEval, tied to the generated code by C01\'s compileC_correct), '
+             'and whenever it reports overflow / division by zero the program traps. The evaluator model is corresponded with the '
+             'real `print` on generated integral expressions over live variables; reading of variables (main, SUB, FUNCTION frames; '
+             'parameters, locals, STATIC, SHARED, arrays, records, constants), float and string expressions, error reporting, '
+             'state preservation and robustness after the program has finished are decided by the probe oracle.',
+        design_ref='DESIGN.md section 9 C13',
+        note=BASE_NOTE + 'Storage lookup is not re-proved here (memlayout is shared with code generation: C04). Float / string '
+             'evaluation is outside the theorem. Model = the debugger AS REPAIRED (five fix commits).',
+        technique='Lean 4 theorem over an evaluator model + correspondence with the real debugger + probe oracle on stepped programs'),
 }
 
 PENDING = ('not yet decided by the Lean framework in this commit; design in DESIGN.md section 9, implementation order in '
